@@ -11,6 +11,7 @@ from sfa.model import call_name
 from sfa.model import kwarg
 from sfa.model import norm
 from sfa.model import walk_local
+from sfa import roles
 from sfa.report import Ctx
 
 
@@ -105,27 +106,76 @@ def tree_form(ctx: Ctx) -> None:
     fb = prog.method('IndexHierarchy', '_from_type_blocks', inherited=False)
 
     def shared_block(f: FuncInfo) -> tp.Optional[ast.If]:
+        # the tree-building chain: an `if <depth var> < <bound>` (inside a loop) whose body creates a dict() node by subscript store
         for n in walk_local(f.node):
-            if isinstance(n, ast.If) and norm(n.test) == 'd < depth_pre_max':
+            if isinstance(n, ast.If) and isinstance(n.test, ast.Compare) and len(n.test.ops) == 1 and isinstance(n.test.ops[0], ast.Lt) \
+                    and isinstance(n.test.left, ast.Name) \
+                    and any(isinstance(x, ast.Assign) and isinstance(x.targets[0], ast.Subscript) and isinstance(x.value, ast.Call) and call_name(x.value) == 'dict'
+                            for b in n.body for x in ast.walk(b)):
                 return n
         return None
     a, b = shared_block(fa), shared_block(fb)
     if a is None or b is None:
-        raise AnalysisError('anchor vanished: shared tree-building block `if d < depth_pre_max`')
+        raise AnalysisError('anchor vanished: shared tree-building block (`if d < bound:` creating dict() nodes)')
 
-    def canon(n: ast.If) -> str:
+    def canon(f: FuncInfo, n: ast.If) -> str:
         import copy
         import re
         n = copy.deepcopy(n)
         for x in ast.walk(n):
             if isinstance(x, ast.Raise) and isinstance(x.exc, ast.Call):
                 x.exc.args = []           # messages differ
+        # alpha-canonical: locals are numbered in order of first appearance in the block
+        local_names = set(roles.stored_names(f.node))
+        order: tp.Dict[str, str] = {}
+        for x in _preorder(n):
+            if isinstance(x, ast.Name) and x.id in local_names and x.id not in order:
+                order[x.id] = f'_v{len(order)}'
+        for x in ast.walk(n):
+            if isinstance(x, ast.Name) and x.id in order:
+                x.id = order[x.id]
         return re.sub(r'\s+', ' ', ast.unparse(n))
-    ca, cb = canon(a), canon(b)
-    (ctx.ok if ca == cb else ctx.bad)(R, fa, a, 'the two tree-building blocks are structurally identical (messages aside)' if ca == cb else
+    ca, cb = canon(fa, a), canon(fb, b)
+    (ctx.ok if ca == cb else ctx.bad)(R, fa, a, 'the two tree-building blocks are structurally identical (messages and local names aside)' if ca == cb else
                                       'from_labels and _from_type_blocks no longer build / validate the tree the same way', key='siblings-agree')
     for f, blk in ((fa, a), (fb, b)):
-        tests = [x for x in ast.walk(blk) if isinstance(x, ast.If) and norm(x.test) == 'v != observed_last[d]']
-        raising = [t for t in tests if any(isinstance(y, ast.Raise) and 'ErrorInitIndex' in norm(y.exc) for y in t.body)]
-        (ctx.ok if len(raising) >= 2 else ctx.bad)(R, f, blk, f'{len(raising)} non-sequential-predecessor tests raise ErrorInitIndex' if len(raising) >= 2 else
-                                                   'a re-opened node that is not the sequential predecessor is accepted: non-tree label orders build an index', key=f'{f.name}:predecessor-test')
+        # every branch that opens a node under `if v not in cur: cur[v] = dict()/list()` must, when the node exists already,
+        # raise unless v is the label last observed at this depth (`v != last[d]`), and record `last[d] = v`
+        raising = 0
+        opening = 0
+        br: tp.Optional[ast.If] = blk
+        while isinstance(br, ast.If):
+            dvar = br.test.left.id if isinstance(br.test, ast.Compare) and isinstance(br.test.left, ast.Name) else None
+            for inner in [x for x in br.body if isinstance(x, ast.If)]:
+                t = inner.test
+                if not (isinstance(t, ast.Compare) and len(t.ops) == 1 and isinstance(t.ops[0], ast.NotIn) and isinstance(t.left, ast.Name)):
+                    continue
+                creates = any(isinstance(x, ast.Assign) and isinstance(x.targets[0], ast.Subscript) and isinstance(x.value, ast.Call)
+                              and call_name(x.value) in ('dict', 'list') for x in inner.body)
+                if not creates:
+                    continue
+                opening += 1
+                v = t.left.id
+                recorded = {norm(x.targets[0].value) for x in br.body if isinstance(x, ast.Assign) and isinstance(x.targets[0], ast.Subscript)
+                            and isinstance(x.value, ast.Name) and x.value.id == v and norm(x.targets[0].slice) == dvar}
+                for chk in [x for o in inner.orelse for x in ast.walk(o) if isinstance(x, ast.If)]:
+                    c = chk.test
+                    if isinstance(c, ast.Compare) and len(c.ops) == 1 and isinstance(c.ops[0], ast.NotEq):
+                        sides = [c.left, c.comparators[0]]
+                        names = [x for x in sides if isinstance(x, ast.Name) and x.id == v]
+                        subs = [x for x in sides if isinstance(x, ast.Subscript) and norm(x.slice) == dvar and norm(x.value) in recorded]
+                        if names and subs and any(isinstance(y, ast.Raise) and 'ErrorInitIndex' in norm(y.exc) for y in chk.body):
+                            raising += 1
+                            break
+            nxt = br.orelse[0] if len(br.orelse) == 1 and isinstance(br.orelse[0], ast.If) else None
+            br = nxt
+        good = opening >= 2 and raising == opening
+        (ctx.ok if good else ctx.bad)(R, f, blk, f'{raising} of {opening} node-opening branches raise ErrorInitIndex for a non-sequential predecessor' if good else
+                                      f'a re-opened node that is not the sequential predecessor is accepted ({raising} of {opening} node-opening branches test it): '
+                                      'non-tree label orders build an index', key=f'{f.name}:predecessor-test')
+
+
+def _preorder(n: ast.AST) -> tp.Iterator[ast.AST]:
+    yield n
+    for c in ast.iter_child_nodes(n):
+        yield from _preorder(c)
